@@ -25,11 +25,12 @@ class Backend:
         self.use_environ = use_environ
         self._module = None
 
-        # Split out api (if present).
-        if api:
+        # Split out api (if present). An explicit api argument wins.
+        if self.name and '/' in self.name:
+            self.name, name_api = self.name.split('/', 1)
+            self.api = api or name_api
+        elif api:
             self.api = api
-        elif self.name and '/' in self.name:
-            self.name, self.api = self.name.split('/', 1)
         else:
             self.api = None
 
